@@ -281,10 +281,38 @@ theorem location_constraint_accepted :
     locOf (decodeDoc X0 (.location loc) .str (deEvents (tokenize (xmlDecl ++ [10] ++ docLocEu ++ [10]))))
       = some (some [69, 85]) := by decide +kernel
 
+/-- `<Key><!-- a -- b -->k</Key>` (the witness `w-illformed-comment`, inside `<Tag>` there) -/
+def docCommentDashes : Bytes :=
+  [60, 75, 101, 121, 62] ++ [60, 33, 45, 45, 32, 97, 32, 45, 45, 32, 98, 32, 45, 45, 62] ++ [107, 60, 47, 75, 101, 121, 62]
+
+/-- F-xml-5h (`xml-illformed-accepted:comment`, FIXED by ce2599c): a comment that holds `--` is a reader error: the
+document is refused with `InvalidXml` (before: accepted as `k`, the comment was skipped unseen) … -/
+theorem comment_dashes_refused :
+    errOf (decodeDoc X0 (.named key) .str (deEvents (tokenize docCommentDashes))) = some .invalidXml := by decide
+
+/-- … the reader stops at the comment … -/
+theorem comment_dashes_events : deEvents (tokenize docCommentDashes) = [.start key [], .bad .invalidXml] := by decide
+
+/-- … so is a comment that ends with `-`: `<Key><!-- a --->k</Key>` … -/
+theorem comment_trailing_dash_refused :
+    errOf (decodeDoc X0 (.named key) .str (deEvents (tokenize
+      ([60, 75, 101, 121, 62] ++ [60, 33, 45, 45, 32, 97, 32, 45, 45, 45, 62] ++ [107, 60, 47, 75, 101, 121, 62]))))
+      = some .invalidXml := by decide
+
+/-- … the specification: `--` inside a comment is not well-formed … -/
+theorem comment_dashes_illformed :
+    (match XmlSpec.parse docCommentDashes with | .error (.illFormed _) => true | _ => false) = true := by decide
+
+/-- … single dashes are fine as before: `<Key><!-- a - b -->k</Key>` is `k` -/
+theorem comment_single_dash_accepted :
+    strOf (decodeDoc X0 (.named key) .str (deEvents (tokenize
+      ([60, 75, 101, 121, 62] ++ [60, 33, 45, 45, 32, 97, 32, 45, 32, 98, 32, 45, 45, 62] ++ [107, 60, 47, 75, 101, 121, 62]))))
+      = some [107] := by decide
+
 /-- `<Key a=b>k</Key>` -/
 def docAttr : Bytes := [60, 75, 101, 121, 32, 97, 61, 98, 62, 107, 60, 47, 75, 101, 121, 62]
 
-/-- F-xml-5b (`xml-illformed-accepted:attribute-syntax`, open — like the clauses 5c … 5j): an unquoted attribute value
+/-- F-xml-5b (`xml-illformed-accepted:attribute-syntax`, open — like the clauses 5c … 5g, 5i, 5j): an unquoted attribute value
 is accepted … -/
 theorem illformed_accepted :
     strOf (decodeDoc X0 (.named key) .str (deEvents (tokenize docAttr))) = some [107] := by decide
